@@ -3,7 +3,7 @@ from .. import tables
 from . import cmpmodel, simd
 
 ID = "C02"
-CONFIGS = {"quick": ["K0", "K1", "K2", "K13", "K17"], "thorough": ["K0", "K1", "K2", "K13", "K14a", "K14b", "K14c", "K17", "K19"]}
+CONFIGS = {"quick": ["K0", "K1", "K2", "K13", "K14b", "K17"], "thorough": ["K0", "K1", "K2", "K13", "K14a", "K14b", "K14c", "K17", "K19"]}
 META = {
     "explanation": (
         "Static analysis (MIR + constant evaluator).  Decides over their FULL index domain that the Q-ratio distance "
